@@ -366,6 +366,35 @@ def run_H(acc):
                     {'leaf': leaf, 'how': how, 'change': change}, want, r2,
                     'H')
             acc.outcome('H-same-target-%s' % (want[1],))
+    # role checks whose placeholder is filled with a value of EVERY JSON type
+    # (the target of an API call holds numbers, booleans, nulls, lists, ...)
+    from mc.ref import leaf as rleaf
+    enf = world.bare_enforcer()
+    world.set_rules(enf, {'direct': 'role:%(t)s', 'viaref': 'rule:direct',
+                          'neg': 'not role:%(t)s',
+                          'mixed': 'role:x-%(t)s or role:%(t)s'})
+    for target in TARGETS + [{'t': 0}, {'t': False}, {'t': ''},
+                             {'t': ['x']}, {'t': 'X'}]:
+        for creds in ({'roles': ['x', '1', 'none', 'True', '1.5', "[1]"]},
+                      {'roles': []}, {},
+                      {'roles': ['x-1', "{'k': 1}", 'false', '0', '']}):
+            acc.case('H', True)
+            exp = rleaf.role_allows('%(t)s', target, creds)
+            expm = exp or rleaf.role_allows('x-%(t)s', target, creds)
+            for name, want in (('direct', exp), ('viaref', exp),
+                               ('neg', not exp), ('mixed', expm)):
+                acc.ev()
+                got = world.decide(enf, name, dict(target),
+                                   copy.deepcopy(creds))
+                if got != ('ok', want):
+                    acc.violation(
+                        'H|role-placeholder|%s' % (
+                            got[1] if got[0] != 'ok' else 'wrong'),
+                        '%s with target %r creds %r decides %r, expected %r'
+                        % (name, target, creds, got, want),
+                        {'name': name, 'target': target, 'creds': creds},
+                        want, got, 'H')
+            acc.outcome('H-role-%s' % exp)
     acc.sample('H', {'leaves': leaves})
 
 
